@@ -15,6 +15,7 @@ from .oracle_ins import store_facts, result_facts_ins, criteria_facts
 class INSObserver(StandardObserver):
     def __init__(self, em: Emitter, model, kill_at_eval=None):
         super().__init__(em, model, kill_at_eval=kill_at_eval)
+        self.user_stop = None     # the user's (criteria, tolerances, any/all), from the run configuration
         self.last_train_n = None
         self.last_threshold = None
         self.pre_remove = None
@@ -149,8 +150,7 @@ class INSObserver(StandardObserver):
                 min_samples=int(ns.min_samples), min_remove=int(ns.min_remove),
                 max_samples=-1 if ns.max_samples is None else int(ns.max_samples),
                 criterion=[fl(c) for c in ns.criterion], tolerance=[fl(t) for t in ns.tolerance],
-                met=[bool(c <= t) for c, t in zip(ns.criterion, ns.tolerance)],
-                stop_any=bool(ns._stop_any), min_it=int(ns.min_iteration),
+                met=obs.user_met(ns)[0], stop_any=obs.user_met(ns)[1], min_it=int(ns.min_iteration),
                 max_it=-1 if not np.isfinite(ns.max_iteration) else int(ns.max_iteration),
                 crit=crit, **obs.counts(ns))
             return r
@@ -206,6 +206,29 @@ class INSObserver(StandardObserver):
                 obs.ckpt_entry = None
 
         sbase.BaseNestedSampler.checkpoint = checkpoint
+
+    def user_met(self, ns):
+        """Which of the user's criteria are met, pairing each criterion AS THE USER WROTE IT with the
+        tolerance the user gave for it and reading its value from the reported history."""
+        from nessai.samplers.importancesampler import ImportanceNestedSampler as INS
+
+        us = self.user_stop or {}
+        crit = us.get("criteria", "ratio")
+        tol = us.get("tolerance", 0.0)
+        crit = [crit] if isinstance(crit, str) else list(crit)
+        tol = list(tol) if isinstance(tol, (list, tuple)) else [tol]
+        canon = []
+        for c in crit:
+            for name, aliases in INS.stopping_criterion_aliases.items():
+                if c in aliases:
+                    canon.append(name)
+                    break
+        sc = ns.history["stopping_criteria"]
+        met = []
+        for name, t in zip(canon, tol):
+            val = sc[name][-1] if sc[name] else float("inf")
+            met.append(bool(float(val) <= float(t)))
+        return met, (us.get("check", "any") == "any")
 
     def done_event(self, fs, tag):
         self.em.emit(tag, **result_facts_ins(fs, self), **self.counts(fs.ns))
